@@ -89,8 +89,11 @@ class ListTensor(Operator):
         ):
             indices = [sub(e, 0, 1).indices() for e in expressions]
             if all(
-                i[0] == k and all(isinstance(subindex, Index) for subindex in i[1:])
-                for k, i in enumerate(indices)
+                i[0] == k
+                and all(isinstance(subindex, Index) for subindex in i[1:])
+                # each row must bind exactly these indices, in this order
+                and sub(e, 1).indices() == i[1:]
+                for k, (e, i) in enumerate(zip(expressions, indices))
             ):
                 return sub(e0, 0, 0)
 
